@@ -4,6 +4,7 @@
     [delta : N -> list level * list level] is an arbitrary exchange evolution (the changes made
     by each update id), [B delta side n] the exchange's book after every id <= n. *)
 From BV Require Import Base.Common Model.Book Proofs.Book Model.BinanceSeq Proofs.BinanceSeq.
+From BV Require Import Corr.C06 Proofs.CorrC06.
 
 (** Key lemma: re-applying absolute-quantity updates that a map already contains changes
     nothing; hence a message whose id range U..u overlaps or abuts the book's id k
@@ -142,6 +143,19 @@ Theorem C06_payload_forms : forall s l p,
   last_write (sort_levels s l) p = last_write l p /\ last_write (net l) p = last_write l p.
 Proof. intros s l p. split; [exact (last_write_sort_levels s l p)|exact (last_write_net l p)]. Qed.
 Print Assumptions C06_payload_forms.
+
+(** Link between the theorems above and the correspondence judgement (Corr/C06.v): on EVERY
+    case that meets the input requirements ([in_domain]: for a stream case, pairwise distinct
+    subscription ids and instrument keys, and REST snapshots equal to the simulated exchange's
+    book as of their id - checked, not trusted), if the model reproduces the observations exactly
+    ([corr_b]) then the property oracle accepts them ([prop_b]) - for single sequencer calls,
+    whole multi-instrument stream cases (any delivery, genuine or not), init cases and crashes
+    alike.  So the oracle is no stricter than the proved model: a [prop_b] failure on the
+    implementation always comes with (or without) a model disagreement, never from the oracle
+    asking for more than the model provably delivers. *)
+Theorem C06_oracle_sound : forall c, in_domain c = true -> corr_b c = true -> prop_b c = true.
+Proof. exact oracle_sound. Qed.
+Print Assumptions C06_oracle_sound.
 
 (* ------------------------------------------------------------------------------------------ *)
 (** Non-vacuity: a concrete exchange, a snapshot at id 2 and a delivery with an old message, an
